@@ -168,10 +168,18 @@ pub fn run(ctx: &Ctx) -> Outcome {
     let miri = if ctx.tier == Tier::Thorough { Some(std::thread::spawn(miri_slice)) } else { None };
     let sp = spaces::unrestricted(ctx.tier, ctx.seed, 4, 4, 3_000, 60_000);
     let texts = spaces::texts_mb(ctx.tier.pick(3, 4));
+    // quick tier: the 4-node and random trees get the texts up to length 2 plus a seeded sample of
+    // the longer ones; the smaller trees get all of them
+    let quick = ctx.tier == Tier::Quick;
+    let short_len = texts.iter().filter(|t| t.chars().count() <= 2).count();
     let cfg = SweepCfg { prop: "C05", backtrack_limit: Some(20_000), step_cap: Some(3_000_000), shadow: true };
     let acc = sweep(&cfg, &sp.patterns, |c: &Case<'_>, acc| {
         let mut multibyte_spans = false;
-        for t in &texts {
+        let reduced = quick && c.node.size() >= 4;
+        for (ti, t) in texts.iter().enumerate() {
+            if reduced && ti >= short_len && (ti + c.index) % 8 != 0 {
+                continue;
+            }
             acc.evals += 1;
             match guard_plain(|| one_text(c.re, t)) {
                 Got::Val(Ok(n)) => {
@@ -205,7 +213,7 @@ pub fn run(ctx: &Ctx) -> Outcome {
     }
     let mut out = Outcome::new(acc);
     out.distinct_nontrivial = out.acc.distinct;
-    out.rule = format!("{}; x all {} texts over {{a, é(2 bytes), €(3), 😀(4), \\n}} up to length {} x every char-boundary start offset x captures_from_pos, find_from_pos, is_match, find, find_iter, captures_iter, split, splitn(0,1,2,max), try_replacen/replacen/replace/replace_all with a template, NoExpand and a closure; every call under catch_unwind with overflow checks and debug assertions compiled into fancy-regex; every reported span validated, then Match::as_str, Index and expand executed. Runs use backtrack_limit 20000 and a VM step cap (cap hits are inconclusive cases). Non-trivial: distinct patterns that reported valid spans on a text containing multi-byte characters.", sp.describe, texts.len(), ctx.tier.pick(3, 4));
+    out.rule = format!("{}; x all {} texts over {{a, é(2 bytes), €(3), 😀(4), \\n}} up to length {} (quick tier: trees of >= 4 nodes get the texts up to length 2 and every 8th longer one) x every char-boundary start offset x captures_from_pos, find_from_pos, is_match, find, find_iter, captures_iter, split, splitn(0,1,2,max), try_replacen/replacen/replace/replace_all with a template, NoExpand and a closure; every call under catch_unwind with overflow checks and debug assertions compiled into fancy-regex; every reported span validated, then Match::as_str, Index and expand executed. Runs use backtrack_limit 20000 and a VM step cap (cap hits are inconclusive cases). Non-trivial: distinct patterns that reported valid spans on a text containing multi-byte characters.", sp.describe, texts.len(), ctx.tier.pick(3, 4));
     out.assumptions = vec!["Err(RuntimeError) is an allowed outcome; replace/replacen/replace_all are only called where try_replacen succeeded (they are documented to panic on runtime errors)".into()];
     let (vm, wr, spans) = (out.acc.get("route:vm"), out.acc.get("route:wrapped"), out.acc.get("valid-spans-checked"));
     out.extra = json!({"routes": {"vm": vm, "wrapped": wr}, "miri_slice": miri_json});
